@@ -440,6 +440,14 @@ def Stmt.unsupported : Stmt → Bool
   | .fail => true
   | _ => false
 
+/-- The end of `RunProgram`: `checkPostingInvariants` on every posting, then the result. -/
+def finish (r : Except String IState) : Except String Result :=
+  match r with
+  | .error e => .error e
+  | .ok st =>
+    if st.postings.any badPosting then .error "InternalError"
+    else .ok { postings := st.postings, txMeta := st.txMeta, accMeta := st.accMeta, final := st }
+
 /-- `InterpreterNumscriptParser.Parse` + `DefaultInterpreterMachineAdapter.Execute`
     (`RunProgram`): variables, balance preload, statements, posting invariants. -/
 def run (s : Script) (inp : Input) : Except String Result :=
@@ -450,11 +458,6 @@ def run (s : Script) (inp : Input) : Except String Result :=
     | .ok (env, cached) =>
       match preload env s.stmts with
       | .error e => .error e
-      | .ok queried =>
-        match runStmts env s.stmts (initState inp (cached ++ queried)) with
-        | .error e => .error e
-        | .ok st =>
-          if st.postings.any badPosting then .error "InternalError"
-          else .ok { postings := st.postings, txMeta := st.txMeta, accMeta := st.accMeta, final := st }
+      | .ok queried => finish (runStmts env s.stmts (initState inp (cached ++ queried)))
 
 end Ledger.Interp
